@@ -1006,6 +1006,14 @@ func gatherOperations(specDoc *analysis.Spec, operationIDs []string) map[string]
 		if found && (oo.Method != opr.Method || oo.Path != opr.Path) {
 			nm = opr.Key
 		}
+		// the method+path key is not unique either when paths only differ by punctuation
+		// (GET /a-b and GET /a_b): number the clashing ones rather than overwrite
+		for i := 1; ; i++ {
+			if _, taken := operations[nm]; !taken {
+				break
+			}
+			nm = fmt.Sprintf("%s%d", opr.Key, i)
+		}
 		if len(operationIDs) == 0 || swag.ContainsStrings(operationIDs, opr.ID) || swag.ContainsStrings(operationIDs, nm) {
 			opr.ID = nm
 			opr.Op.ID = nm
